@@ -186,6 +186,70 @@ class Degrees:
         return 0
 
 
+
+_WP_MEMO = {}
+
+
+def weight_params(ctx):
+    """Role-based identification of weight parameters, independent of their names: a parameter is a *weight* when it is pushed into
+    Circuit::netWeights_ / NetModel::netWeight_, is the value of a mat_ triplet, or is forwarded in the position of a weight
+    parameter of another function. Returns {func key: set(param index)}."""
+    key = id(ctx)
+    if key in _WP_MEMO:
+        return _WP_MEMO[key]
+    prog = ctx.prog
+    marks = {}
+    sinks = {CQ + "NetModel::netWeight_", CQ + "Circuit::netWeights_"}
+    scope = [f for f in prog.funcs.values() if f.body is not None and f.cls in (CQ + "NetModel", CQ + "Circuit", CQ + "MatrixCreator")]
+
+    def pidx(f, c):
+        if c[0] == "var":
+            for i, p in enumerate(f.params):
+                if p.get("id") == c[1]:
+                    return i
+        return None
+
+    for f in scope:
+        for x in walk(f.body):
+            if x.get("kind") != "CXXMemberCallExpr":
+                continue
+            ci = callee_info(x)
+            if not ci or ci["obj"] is None or ci["name"] not in ("push_back", "emplace_back"):
+                continue
+            oc = canon(ci["obj"])
+            if oc[0] == "field" and oc[1] in sinks and ci["args"]:
+                i = pidx(f, canon(ci["args"][0], refs=False))
+                if i is not None:
+                    marks.setdefault(f.key, set()).add(i)
+            if oc == ("field", CQ + "MatrixCreator::mat_", ("this",)) and len(ci["args"]) == 3:
+                i = pidx(f, canon(ci["args"][2], refs=False))
+                if i is not None:
+                    marks.setdefault(f.key, set()).add(i)
+    changed = True
+    while changed:
+        changed = False
+        for f in scope:
+            for x in walk(f.body):
+                if x.get("kind") not in ("CXXMemberCallExpr", "CallExpr"):
+                    continue
+                _ci, fs = ctx.eff.resolve_callee(x)
+                ci = callee_info(x)
+                for g in fs:
+                    for j in marks.get(g.key, ()):
+                        if j < len(ci["args"]):
+                            i = pidx(f, canon(ci["args"][j], refs=False))
+                            if i is not None and i not in marks.get(f.key, set()):
+                                marks.setdefault(f.key, set()).add(i)
+                                changed = True
+    _WP_MEMO[key] = marks
+    return marks
+
+
+def weight_param_of(ctx, f):
+    """The weight parameters (decl nodes) of function f."""
+    idx = weight_params(ctx).get(f.key, set())
+    return [p for i, p in enumerate(f.params) if i in idx]
+
 _FIELD_MEMO = {}
 DEG1_FIELDS = ("MatrixCreator::rhs_", "MatrixCreator::mat_")
 
@@ -236,6 +300,7 @@ def field_degree(ctx, q):
 def run(ctx, rep, tier):
     prog, eff = ctx.prog, ctx.eff
     _FIELD_MEMO.clear()
+    _WP_MEMO.clear()
     rep.rule("QH", "comparisons and solver settings on the weight path are scale-free: equal degrees compared, degree-0 settings", 10)
     rep.rule("QT", "weight path is floating-point end to end; no float-to-int conversion of a weight-carrying value", 6)
     rep.rule("QD", "matrix coefficients, rhs increments and pin weights are homogeneous of degree 1 in (weights, penalties)", 20)
@@ -277,9 +342,8 @@ def check_qt(ctx, rep):
     for q in (CQ + "Circuit::addNet", CQ + "NetModel::addNet", CQ + "MatrixCreator::addPin",
               CQ + "MatrixCreator::addMovingPin", CQ + "MatrixCreator::addFixedPin"):
         for f in prog.func(q):
-            for p in f.params:
-                if p.get("name") == "weight":
-                    wparams.append((f, p))
+            for p in weight_param_of(ctx, f):
+                wparams.append((f, p))
     for f, p in wparams:
         if qt(p).replace("const ", "").strip() in FLOATS:
             rep.holds("QT", p, f, "parameter weight of %s is %s" % (f.short, qt(p)))
@@ -310,9 +374,16 @@ def check_qt(ctx, rep):
 
 
 def degrees_for(ctx, f):
-    p1 = {p.get("id") for p in f.params if p.get("name") in ("weight",) and qt(p).replace("const ", "").strip() in FLOATS + ("int",)}
+    p1 = {p.get("id") for p in weight_param_of(ctx, f)}
     v1 = {p.get("id") for p in f.params if p.get("name") in ("penaltyStrength", "penalty") and "vector" in qt(p)}
     return Degrees(ctx, f, p1, v1)
+
+
+def _mentions_float_vector_param(ctx, f, c):
+    from .common import expand_locals
+    vp = {p.get("id") for p in f.params if "vector<float" in qt(p) or "vector<double" in qt(p)}
+    e = expand_locals(ctx, f, c)
+    return any(t[0] == "var" and t[1] in vp for t in subterms(e))
 
 
 # ---- QD / QR ---------------------------------------------------------------------
@@ -358,7 +429,7 @@ def check_qd(ctx, rep):
                 # calls to the pin functions: weight argument
                 elif ci["qname"] in pin_qs:
                     callee = prog.func1(ci["qname"])
-                    wi = [i for i, p in enumerate(callee.params) if p.get("name") == "weight"]
+                    wi = sorted(weight_params(ctx).get(callee.key, ()))
                     if not wi or wi[0] >= len(ci["args"]):
                         rep.unknown("QD", x, f, "pin weight", "weight parameter position not found")
                         continue
@@ -367,6 +438,9 @@ def check_qd(ctx, rep):
                     what = "%s(..., weight=%s)" % (ci["name"], pretty(wc))
                     if d == 1:
                         rep.holds("QD", x, f, what, "degree 1")
+                    elif d == 0 and not deg.p1 and not deg.v1 and _mentions_float_vector_param(ctx, f, wc):
+                        rep.unknown("QD", x, f, what, "no declared source of degree 1 (net weight / penalty strength) is recognised in %s although the "
+                                    "argument derives from a float-vector parameter: the strengths parameter was probably renamed" % f.short)
                     else:
                         rep.violation("QD", x, f, what, "weight argument has homogeneity degree %s; must be exactly 1 "
                                       "(a constant or weight-free strength does not scale with the weights)" % d,
@@ -498,7 +572,7 @@ def check_pv(ctx, rep):
         for x in calls:
             ci = callee_info(x)
             callee = [g for g in prog.func(CQ + "NetModel::addNet") if len(g.params) == len(ci["args"])]
-            wi = [i for i, p in enumerate(callee[0].params) if p.get("name") == "weight"] if callee else []
+            wi = sorted(weight_params(ctx).get(callee[0].key, ())) if callee else []
             if not wi:
                 rep.violation("PV", x, f, "addNet overload without weight", "the circuit's net weight is not passed to the model",
                               key="%s|weight not passed" % f.short)
@@ -515,20 +589,20 @@ def check_pv(ctx, rep):
     # forwarding inside the overloads
     stored = False
     for f in prog.func(CQ + "NetModel::addNet"):
-        wp = [p for p in f.params if p.get("name") == "weight"]
+        wp = weight_param_of(ctx, f)
         for x in walk(f.body):
             if x.get("kind") != "CXXMemberCallExpr":
                 continue
             ci = callee_info(x)
             if ci["qname"] == CQ + "NetModel::addNet" and wp:
                 callee = [g for g in prog.func(CQ + "NetModel::addNet") if len(g.params) == len(ci["args"])]
-                wi = [i for i, p in enumerate(callee[0].params) if p.get("name") == "weight"] if callee else []
+                wi = sorted(weight_params(ctx).get(callee[0].key, ())) if callee else []
                 if not wi:
                     rep.violation("PV", x, f, "nested addNet drops the weight", "callee overload has no weight parameter",
                                   key="%s|nested addNet without weight" % f.short)
                     continue
                 a = ci["args"][wi[0]]
-                if a.get("kind") == "CXXDefaultArgExpr" or canon(a) != ("var", wp[0].get("id"), "weight"):
+                if a.get("kind") == "CXXDefaultArgExpr" or canon(a)[:2] != ("var", wp[0].get("id")):
                     rep.violation("PV", x, f, "nested addNet does not forward the weight",
                                   "argument is %s" % ("the default value" if a.get("kind") == "CXXDefaultArgExpr" else pretty(canon(a))),
                                   key="%s|weight not forwarded" % f.short)
@@ -536,7 +610,7 @@ def check_pv(ctx, rep):
                     rep.holds("PV", x, f, "nested addNet forwards weight")
             if ci["name"] == "push_back" and ci["obj"] is not None and canon(ci["obj"]) == ("field", CQ + "NetModel::netWeight_", ("this",)):
                 ac = canon(ci["args"][0])
-                if wp and ac == ("var", wp[0].get("id"), "weight"):
+                if wp and ac[:2] == ("var", wp[0].get("id")):
                     rep.holds("PV", x, f, "netWeight_.push_back(weight)")
                     stored = True
                 else:
